@@ -1,3 +1,4 @@
+import NucsProofs.Engine.ShavingTerm
 import NucsProofs.Engine.StatsProofs
 /-!
   C17 — reported statistics are exact counts obeying conservation laws.
